@@ -35,6 +35,8 @@ pub enum T {
     Pow(Box<T>, u32),
     SmtLoop(Box<T>, u32, u32),
     Loop(Box<T>, u32, Option<u32>), // mk_loop with LoopRange::finite / infinite
+    /// char_derivative(a, c) used as an operand of further constructions (ReManager surface only)
+    Quot(u32, Box<T>),
 }
 
 fn b(t: &T) -> Box<T> {
@@ -69,6 +71,19 @@ impl T {
             T::Pow(a, n) => json!({"k":"pow","a":a.json(),"n":n}),
             T::SmtLoop(a, i, j) => json!({"k":"smtloop","a":a.json(),"lo":i,"hi":j}),
             T::Loop(a, i, j) => json!({"k":"loop","a":a.json(),"lo":i,"hi":match j {Some(x)=>*x as i64, None=>-1}}),
+            T::Quot(c, a) => json!({"k":"quot","c":c,"a":a.json()}),
+        }
+    }
+
+    /// does the program use a derivative as an operand (not expressible with the re_* wrappers)?
+    pub fn has_quot(&self) -> bool {
+        match self {
+            T::Quot(..) => true,
+            T::Cat2(a, b) | T::Alt2(a, b) | T::And2(a, b) | T::Diff1(a, b) => a.has_quot() || b.has_quot(),
+            T::CatL(v) | T::AltL(v) | T::AndL(v) => v.iter().any(|x| x.has_quot()),
+            T::DiffL(a, v) => a.has_quot() || v.iter().any(|x| x.has_quot()),
+            T::Not(a) | T::Star(a) | T::Plus(a) | T::Opt(a) | T::Pow(a, _) | T::SmtLoop(a, _, _) | T::Loop(a, _, _) => a.has_quot(),
+            _ => false,
         }
     }
 
@@ -99,6 +114,7 @@ impl T {
             T::Pow(..) => "exp",
             T::SmtLoop(..) => "smt_loop",
             T::Loop(..) => "mk_loop",
+            T::Quot(..) => "char_derivative",
         }
     }
 
@@ -107,7 +123,7 @@ impl T {
             T::Cat2(a, b) | T::Alt2(a, b) | T::And2(a, b) | T::Diff1(a, b) => 1 + a.depth().max(b.depth()),
             T::CatL(v) | T::AltL(v) | T::AndL(v) => 1 + v.iter().map(|x| x.depth()).max().unwrap_or(0),
             T::DiffL(a, v) => 1 + a.depth().max(v.iter().map(|x| x.depth()).max().unwrap_or(0)),
-            T::Not(a) | T::Star(a) | T::Plus(a) | T::Opt(a) | T::Pow(a, _) | T::SmtLoop(a, _, _) | T::Loop(a, _, _) => {
+            T::Not(a) | T::Star(a) | T::Plus(a) | T::Opt(a) | T::Pow(a, _) | T::SmtLoop(a, _, _) | T::Loop(a, _, _) | T::Quot(_, a) => {
                 1 + a.depth()
             }
             _ => 0,
@@ -125,7 +141,7 @@ impl T {
             T::Cat2(a, b) | T::Alt2(a, b) | T::And2(a, b) | T::Diff1(a, b) => 1 + a.cost() + b.cost(),
             T::CatL(v) | T::AltL(v) | T::AndL(v) => sum(v),
             T::DiffL(a, v) => a.cost() + sum(v),
-            T::Not(a) => a.cost(),
+            T::Not(a) | T::Quot(_, a) => a.cost(),
             T::Star(a) | T::Plus(a) | T::Opt(a) => 2 * a.cost(),
             T::Pow(a, n) => (*n as u64 + 1) * a.cost(),
             T::SmtLoop(a, _, j) => (*j as u64 + 1) * a.cost(),
@@ -139,7 +155,7 @@ impl T {
             T::Cat2(a, b) | T::Alt2(a, b) | T::And2(a, b) | T::Diff1(a, b) => a.has_loop() || b.has_loop(),
             T::CatL(v) | T::AltL(v) | T::AndL(v) => v.iter().any(|x| x.has_loop()),
             T::DiffL(a, v) => a.has_loop() || v.iter().any(|x| x.has_loop()),
-            T::Not(a) => a.has_loop(),
+            T::Not(a) | T::Quot(_, a) => a.has_loop(),
             _ => false,
         }
     }
@@ -178,6 +194,11 @@ impl T {
                 v.iter().for_each(|x| x.ends(out));
             }
             T::Not(a) | T::Star(a) | T::Plus(a) | T::Opt(a) | T::Pow(a, _) | T::SmtLoop(a, _, _) | T::Loop(a, _, _) => {
+                a.ends(out)
+            }
+            T::Quot(c, a) => {
+                out.push(*c);
+                out.push(*c + 1);
                 a.ends(out)
             }
             _ => {}
@@ -268,6 +289,10 @@ impl T {
                 };
                 m.mk_loop(x, r)
             }
+            T::Quot(c, a) => {
+                let x = a.build(m);
+                m.char_derivative(x, *c)
+            }
         }
     }
 
@@ -298,6 +323,7 @@ impl T {
             T::Opt(a) => T::Opt(f(a)),
             T::Pow(a, n) => T::Pow(f(a), *n),
             T::SmtLoop(a, i, j) => T::SmtLoop(f(a), *i, *j),
+            T::Quot(c, a) => T::Quot(*c, f(a)),
             other => other.clone(),
         }
     }
@@ -544,6 +570,9 @@ pub fn random_term(rng: &mut Rng, d: usize, pool: &Pool) -> T {
             T::SmtLoop(sub(rng), i, i + rng.range(0, 3))
         }
         14 => {
+            if rng.coin(1, 3) {
+                return T::Quot(*rng.pick(&pool.letters()), sub(rng));
+            }
             let i = rng.range(0, 3);
             let j = if rng.coin(1, 2) { None } else { Some(i + rng.range(0, 3)) };
             T::Loop(sub(rng), i, j)
@@ -572,6 +601,36 @@ pub fn random_term(rng: &mut Rng, d: usize, pool: &Pool) -> T {
             T::Loop(Box::new(inner), k, if rng.coin(1, 3) { None } else { Some(k + rng.range(0, 2)) })
         }
     }
+}
+
+/// Derivatives used as operands of further constructions: a caller may feed what char_derivative
+/// returned to any constructor; the result must denote the construction over the left quotient.
+pub fn quotient_family(pool: &Pool) -> Vec<T> {
+    let (a, bb) = (T::Chr(pool.a), T::Chr(pool.b));
+    let bases: Vec<T> = vec![
+        T::Str(vec![pool.a, pool.b]), T::Star(b(&T::Rng(pool.a, pool.b))), T::Cat2(b(&T::Opt(b(&a))), b(&bb)),
+        T::Alt2(b(&T::Str(vec![pool.a, pool.a])), b(&T::Str(vec![pool.a, pool.b]))), T::Loop(b(&a), 2, Some(3)),
+        T::Not(b(&T::Str(vec![pool.a]))), T::And2(b(&T::Plus(b(&a))), b(&T::Not(b(&T::Pow(b(&a), 2))))),
+        T::Cat2(b(&T::All), b(&a)), T::Loop(b(&T::Loop(b(&a), 1, Some(2))), 2, None), T::AllChar,
+    ];
+    let mut v = vec![];
+    for x in &bases {
+        for &c in &[pool.a, pool.b, pool.c] {
+            let q = T::Quot(c, b(x));
+            v.push(q.clone());
+            v.push(T::Alt2(b(&q), b(&bb)));
+            v.push(T::Cat2(b(&q), b(x)));
+            v.push(T::Cat2(b(x), b(&q)));
+            v.push(T::And2(b(&q), b(&T::Not(b(x)))));
+            v.push(T::Not(b(&q)));
+            v.push(T::Star(b(&q)));
+            v.push(T::Loop(b(&q), 1, Some(2)));
+            v.push(T::Quot(pool.b, b(&T::Cat2(b(&q), b(&bb)))));
+            v.push(T::Alt2(b(&q), b(&T::Not(b(&q)))));
+            v.push(T::Diff1(b(x), b(&T::Cat2(b(&T::Chr(c)), b(&q)))));
+        }
+    }
+    v
 }
 
 /// Loops of loops: the flattening rule (R^[a,b])^[c,d] -> R^[ac,bd] is only sound when the
